@@ -215,7 +215,13 @@ def find_clone_from(S, site, impl):
         S.bad('SUM-CLONE', 'clone_from-signature', 'unexpected signature of fn clone_from', k)
         return None
     g = S.atoms(k)
-    if not (len(g) == 1 and g[0][0] == 'empty' and g[0][2] is False):
+    # "iff it has a body": the guard is the non-emptiness of the very stream that fills the body of this fn
+    body_ids = set()
+    for h_ in k.tmpl.holes:
+        d_ = k.tmpl.hole_def(h_)
+        if d_ is not None:
+            body_ids.add(d_.id)
+    if not (len(g) == 1 and g[0][0] == 'empty' and g[0][2] is False and isinstance(g[0][1], tuple) and g[0][1][0] == 'var' and g[0][1][1] in body_ids):
         S.bad('SUM-CLONE', 'clone_from-guard', 'fn clone_from is emitted under %s (expected: iff it has a body)' % [atom_s(a) for a in g], k)
         return None
     return k, f
@@ -367,7 +373,7 @@ def check_enum(cx, fn, rep, facts):
             S.bad('SUM-CLONE', 'clone-notcopy-guard', 'a variant-wise clone body is not guarded by "not the bitwise-copy case"', b)
             ok = False
         if e['k'] == 'Macro':
-            if e['mac']['name'] != '::core::unreachable' or not any(a[0] == 'empty' and a[2] is True for a in atoms):
+            if e['mac']['name'] != '::core::unreachable' or not __import__('sa.emptiness', fromlist=['empty_evidence']).empty_evidence(atoms, S.cx, S.fw):
                 S.bad('SUM-CLONE', 'clone-empty-enum', 'unexpected macro body', b)
                 ok = False
             seen.add('empty')
@@ -402,7 +408,7 @@ def check_enum(cx, fn, rep, facts):
             S.bad('SUM-CLONE', 'clone_from-copy', 'a clone_from body is emitted in the bitwise-copy case', b)
             ok = False
         if let_underscore_source(b):
-            if not any(a[0] == 'empty' and a[2] is True for a in S.atoms(b)):
+            if not __import__('sa.emptiness', fromlist=['empty_evidence']).empty_evidence(S.atoms(b), S.cx, S.fw):
                 S.bad('SUM-CLONE', 'clone_from-noop-guard', '`let _ = source;` outside the empty-enum case', b)
                 ok = False
             continue
